@@ -82,6 +82,16 @@ template <class Op> static void window(long n, Result& r, Op op) {
 }
 template <class J> static bool usable(const J& j) { try { std::string s; j.dump(s); return !s.empty(); } catch (...) { return false; } }
 
+using sojson = basic_json<char, order_preserving_policy, SAlloc>;
+// scenarios with a stateful (tracking) allocator, for the sorted and the insertion-ordered container: blocks must go back to an EQUAL allocator
+template <class SJ, class R> static void stateful_scn(const std::string& what, const std::string& text, long n, R& r) {
+    SAlloc al1(TrackAlloc<char>(1)), al2(TrackAlloc<char>(2));
+    auto mk = [&](const SAlloc& al) { SJ j(json_array_arg, al); for (int i = 0; i < 3; ++i) j.push_back(SJ("a long string value 0123456789 " + std::to_string(i), al)); SJ o(json_object_arg, al); o.try_emplace("k", SJ(text.substr(0, 40), al)); o.try_emplace("m", SJ(json_object_arg, al)); j.push_back(std::move(o)); return j; };
+    if (what == "parse") { std::optional<SJ> res; window(n, r, [&] { json_decoder<SJ, SAlloc> dec(al1, al1); basic_json_reader<char, string_source<char>, SAlloc> rd(text, dec, al1); rd.read(); res.emplace(dec.get_result()); }); }
+    else if (what == "copy") { SJ a = mk(al1); std::optional<SJ> b, c2, c3; window(n, r, [&] { b.emplace(a); c2.emplace(a, al2); c3.emplace(a[3], al2); }); r.usable = usable(a); }
+    else if (what == "assign") { SJ a = mk(al1); SJ b = mk(al2); std::optional<SJ> t; window(n, r, [&] { b = a; t.emplace(mk(al2)); a = std::move(*t); SJ scalar(7); scalar = b[3]; }); r.usable = usable(a) && usable(b); }
+    else { SJ a = mk(al1); SJ b = mk(al2); window(n, r, [&] { a.push_back(b); a.insert(a.array_range().begin(), b); a[4].insert_or_assign("another long member name 0123456789", b); a.swap(b); }); r.usable = usable(a) && usable(b); }
+}
 static void run_scenario(const mj::Value& c, long n, bool log = true) {
     const std::string scn = c["scn"].str(); std::string text = jc::units_to_string(c["text"]);
     Result r;
@@ -121,14 +131,19 @@ static void run_scenario(const mj::Value& c, long n, bool log = true) {
             window(n, r, [&] { jsonpatch::apply_patch(doc, patch, ec); }); r.usable = usable(doc); r.strong = true; r.same = (r.out == "ok" && !ec) ? true : (doc == doc0); }
         else if (scn == "schema") { json schema = json::parse("{\"type\":\"object\",\"properties\":{\"a\":{\"type\":\"array\",\"items\":{\"anyOf\":[{\"type\":\"integer\"},{\"$ref\":\"#/$defs/o\"}]}},\"c\":{\"type\":\"string\",\"minLength\":3}},\"required\":[\"a\"],\"$defs\":{\"o\":{\"type\":\"object\",\"additionalProperties\":{\"type\":\"string\"}}}}");
             json inst = json::parse(text); std::optional<jsonschema::json_schema<json>> compiled; window(n, r, [&] { compiled.emplace(jsonschema::make_json_schema(schema)); bool v = compiled->is_valid(inst); (void)v; }); r.usable = usable(schema) && usable(inst); }
-        else if (scn.rfind("stateful-", 0) == 0) {
-            SAlloc al1(TrackAlloc<char>(1)), al2(TrackAlloc<char>(2));
-            auto mk = [&](const SAlloc& al) { sjson j(json_array_arg, al); for (int i = 0; i < 3; ++i) j.push_back(sjson("a long string value 0123456789 " + std::to_string(i), al)); sjson o(json_object_arg, al); o.try_emplace("k", sjson(text.substr(0, 40), al)); j.push_back(std::move(o)); return j; };
-            if (scn == "stateful-parse") { std::optional<sjson> res; window(n, r, [&] { json_decoder<sjson, SAlloc> dec(al1, al1); basic_json_reader<char, string_source<char>, SAlloc> rd(text, dec, al1); rd.read(); res.emplace(dec.get_result()); }); }
-            else if (scn == "stateful-copy") { sjson a = mk(al1); std::optional<sjson> b, c2; window(n, r, [&] { b.emplace(a); c2.emplace(a, al2); }); r.usable = usable(a); }
-            else if (scn == "stateful-assign") { sjson a = mk(al1); sjson b = mk(al2); std::optional<sjson> t; window(n, r, [&] { b = a; t.emplace(mk(al2)); a = std::move(*t); }); r.usable = usable(a) && usable(b); }
-            else { sjson a = mk(al1); sjson b = mk(al2); window(n, r, [&] { a.push_back(b); a.insert(a.array_range().begin(), b); a[4].insert_or_assign("another long member name 0123456789", b); a.swap(b); }); r.usable = usable(a) && usable(b); }
-        }
+        else if (scn == "merge-rvalue") {     // rvalue and hinted overloads; members present in both objects with heap-allocated values
+            json a = json::parse("{\"k1\":\"a long string value 0123456789\",\"k2\":[1,2],\"k5\":{\"y\":\"yet another long string value 0123456789\"}}");
+            json b = json::parse("{\"k1\":\"a different long string value 0123456789\",\"k2\":{\"w\":[1,2,3]},\"k3\":{\"z\":\"another long string value 0123456789\"},\"k5\":\"short\"}"); json src = json::parse(text);
+            std::optional<json> t1, t2, t3;
+            window(n, r, [&] { t1.emplace(b); a.merge_or_update(std::move(*t1)); t2.emplace(b); a.merge(std::move(*t2)); a.merge(a.object_range().begin(), b); t3.emplace(b); a.merge_or_update(a.object_range().begin() + 1, std::move(*t3)); a.try_emplace(a.object_range().begin(), "src", src); });
+            r.usable = usable(a) && usable(b); }
+        else if (scn == "ojson-ops") {        // the insertion-ordered container through the same operations
+            ojson a = ojson::parse(text); ojson o = ojson::parse("{\"k1\":\"a long string value 0123456789\",\"k2\":[1,2]}"); ojson b = ojson::parse("{\"k2\":{\"w\":\"another long string value 0123456789\"},\"k3\":[3]}");
+            std::optional<ojson> cp, t1;
+            window(n, r, [&] { cp.emplace(a); o.insert_or_assign("a long member name number 1", a); o.merge(b); t1.emplace(b); o.merge_or_update(std::move(*t1)); o.try_emplace("k9", a); o.erase("k1"); ojson x; x = o; std::string s; x.dump(s); });
+            r.usable = usable(a) && usable(o) && usable(b); }
+        else if (scn.rfind("stateful-o-", 0) == 0) { stateful_scn<sojson>(scn.substr(11), text, n, r); }
+        else if (scn.rfind("stateful-", 0) == 0) { stateful_scn<sjson>(scn.substr(9), text, n, r); }
         logev('E', r.out == "ok" ? 0 : r.out == "bad_alloc" ? 1 : 2, 0, 0);
         logev('P', r.usable, r.same, r.strong);
     }
